@@ -1,0 +1,141 @@
+//go:build verif
+
+package keeper
+
+// Contracts for the deductive checker in /verif (comment-only; compiled only with -tags verif).
+
+/*@
+alias DaoParams github.com/haqq-network/haqq/x/ucdao/types.Params
+alias DaoBalance github.com/haqq-network/haqq/x/ucdao/types.Balance
+alias DaoBalList []github.com/haqq-network/haqq/x/ucdao/types.Balance
+alias DaoGenesis github.com/haqq-network/haqq/x/ucdao/types.GenesisState
+alias Bytes []uint8
+alias PStore github.com/cosmos/cosmos-sdk/store/prefix.Store
+sort DaoBal = (Array Bytes Coins)
+sort DaoHold = (Array Bytes Bool)
+
+// abstract view of the ucdao store: params (key 0x03), balances (0x01 | lenprefix(addr) | denom -> amount) as
+// addr -> Coins, holders index (0x04 | lenprefix(addr)) keyed by the length-prefixed address, totals (0x00 | denom).
+// The denom -> address reverse index (0x02 ...) is written but never read by the module and is not part of the view.
+world dao_params DaoParams
+world dao_bal DaoBal
+world dao_holders DaoHold
+world dao_total Coins
+
+// coins b laid over a: every non-zero entry of b replaces the entry of a (what per-denom store.Set does)
+specfunc cover(a Coins, b Coins) Coins = smt "((_ map (ite (Bool Int Int) Int)) ((_ map (= (Int Int) Bool)) b ((as const (Array Str Int)) 0)) a b)"
+specfunc dao_put_bal(m DaoBal, a Bytes, c Coins) DaoBal = smt "(store m a c)"
+specfunc dao_put_hold(m DaoHold, k Bytes) DaoHold = smt "(store m k true)"
+
+// address of a genesis balance entry / raw key of the holders store
+// (sdk.MustAccAddressFromBech32 and address.MustLengthPrefix: lib 60_genesis.spec, pure as addr_of / addr_lp)
+specfunc bal_addr(b DaoBalance) Bytes = addr_of(b.Address)
+specfunc bal_key(b DaoBalance) Bytes = addr_lp(addr_of(b.Address))
+
+// sum of the coins of the first n entries
+ghost func BalSum(l DaoBalList, n int) Coins
+    def ite(n <= 0, coins_zero(), cadd(BalSum(l, n-1), l[n-1].Coins))
+
+// the enumeration of the balances store grouped by account ("listOf")
+uf dao_list(m DaoBal) DaoBalList
+// A-dao-members: one entry per account with a non-zero balance, carrying its bech32 address and its coins
+axiom dao_list: forall m DaoBal :: len(dao_list(m)) >= 0
+        && (forall i int :: 0 <= i && i < len(dao_list(m)) ==> !ciszero(dao_list(m)[i].Coins) && m[bal_addr(dao_list(m)[i])] == dao_list(m)[i].Coins)
+        && (forall i int, j int :: 0 <= i && i < j && j < len(dao_list(m)) ==> bal_addr(dao_list(m)[i]) != bal_addr(dao_list(m)[j]))
+uf dao_list_idx(m DaoBal, a Bytes) int
+// A-dao-complete: every account with a non-zero balance is listed
+axiom dao_list: forall m DaoBal, a Bytes :: !ciszero(m[a]) ==> 0 <= dao_list_idx(m, a) && dao_list_idx(m, a) < len(dao_list(m))
+        && bal_addr(dao_list(m)[dao_list_idx(m, a)]) == a
+
+// ---- leaf store accessors: assumed contracts over the abstract store view
+func (BaseKeeper).GetParams
+    trusted
+    ensures result == dao_params
+func (BaseKeeper).SetParams
+    trusted
+    modifies dao_params
+    ensures result == nil ==> dao_params == params
+    ensures result != nil ==> dao_params == old(dao_params)
+// iteration helpers (prefix iterators + codec)
+func (BaseKeeper).GetAccountsBalances
+    trusted
+    ensures result == dao_list(dao_bal)
+func (BaseKeeper).GetTotalBalance
+    trusted
+    ensures result == dao_total
+func (BaseKeeper).setTotalBalanceOfCoin
+    trusted
+    modifies dao_total
+    ensures dao_total == cset(old(dao_total), coin.Denom, coin.Amount)
+// multi-key leaf setter (raw KV writes only): every non-zero coin is written under (addr, denom); zero coins are skipped
+func (BaseKeeper).initBalances
+    trusted
+    modifies dao_bal
+    ensures ok: result == nil ==> dao_bal == dao_put_bal(old(dao_bal), addr, cover(old(dao_bal)[addr], balances))
+func (BaseKeeper).getHoldersStore
+    trusted
+    ensures ps_holders(result)
+// prefix.Store operations, specified for the holders store only (the only store InitGenesis touches directly)
+uf ps_holders(s PStore) bool
+func (github.com/cosmos/cosmos-sdk/store/prefix.Store).Has
+    params s, key
+    trusted
+    requires holders: ps_holders(s)
+    ensures result == dao_holders[key]
+func (github.com/cosmos/cosmos-sdk/store/prefix.Store).Set
+    params s, key, value
+    trusted
+    requires holders: ps_holders(s)
+    modifies dao_holders
+    ensures dao_holders == dao_put_hold(old(dao_holders), key)
+
+// what holds for every entry of a permutation L of G holds for every entry of G (proved once, outside the big context)
+lemma PermBal(G DaoBalList, L DaoBalList, m DaoBal, m0 DaoBal)
+    requires len(L) == len(G)
+    requires forall k int :: 0 <= k && k < len(G) ==> 0 <= san_dst(G, k) && san_dst(G, k) < len(L) && L[san_dst(G, k)] == G[k]
+    requires forall k int :: 0 <= k && k < len(L) ==> m[bal_addr(L[k])] == cover(m0[bal_addr(L[k])], L[k].Coins)
+    ensures forall k int :: 0 <= k && k < len(G) ==> m[bal_addr(G[k])] == cover(m0[bal_addr(G[k])], G[k].Coins)
+lemma PermHold(G DaoBalList, L DaoBalList, h DaoHold)
+    requires len(L) == len(G)
+    requires forall k int :: 0 <= k && k < len(G) ==> 0 <= san_dst(G, k) && san_dst(G, k) < len(L) && L[san_dst(G, k)] == G[k]
+    requires forall k int :: 0 <= k && k < len(L) ==> (!ciszero(L[k].Coins) ==> h[bal_key(L[k])])
+    ensures forall k int :: 0 <= k && k < len(G) ==> (!ciszero(G[k].Coins) ==> h[bal_key(G[k])])
+
+// ---- C19: ucdao genesis export / import
+func (BaseKeeper).ExportGenesis
+    ensures nonnil: result != nil
+    ensures params: result.Params == dao_params
+    ensures balances: result.Balances == dao_list(dao_bal)
+    ensures total: result.TotalBalance == dao_total
+
+// importing a document whose entries have pairwise different addresses: every entry's coins are written over the
+// account's balance, holders are indexed, the stored total is the sum (which must match a non-empty TotalBalance).
+func (BaseKeeper).InitGenesis
+    let G = old(genState.Balances)
+    let L = genState.Balances
+    maypanic
+    modifies dao_params, dao_bal, dao_holders, dao_total, *genState
+    requires nonnil: genState != nil
+    requires unique: forall i int, j int :: 0 <= i && i < j && j < len(genState.Balances) ==> bal_addr(genState.Balances[i]) != bal_addr(genState.Balances[j])
+    ensures params: dao_params == old(genState.Params)
+    ensures balances: forall k int :: 0 <= k && k < len(G) ==> dao_bal[bal_addr(G[k])] == cover(old(dao_bal)[bal_addr(G[k])], G[k].Coins)
+    ensures others: forall a Bytes :: (forall k int :: 0 <= k && k < len(G) ==> bal_addr(G[k]) != a) ==> dao_bal[a] == old(dao_bal)[a]
+    ensures holders: forall k int :: 0 <= k && k < len(G) ==> (!ciszero(G[k].Coins) ==> dao_holders[bal_key(G[k])])
+    ensures holders_grow: forall key Bytes :: old(dao_holders)[key] ==> dao_holders[key]
+    ensures holders_only: forall key Bytes :: (forall k int :: 0 <= k && k < len(G) ==> bal_key(G[k]) != key || ciszero(G[k].Coins)) ==> dao_holders[key] == old(dao_holders)[key]
+    ensures total_checked: !ciszero(old(genState.TotalBalance)) ==> dao_total == cover(old(dao_total), old(genState.TotalBalance))
+    ensures total_sum: dao_total == cover(old(dao_total), BalSum(L, len(L)))
+    use return PermBal(old(genState.Balances), genState.Balances, dao_bal, old(dao_bal))
+    use return PermHold(old(genState.Balances), genState.Balances, dao_holders)
+    loop 1 invariant idx: 0 <= #i && #i <= len(L) && len(L) == len(G) && genState != nil
+    loop 1 invariant params: dao_params == old(genState.Params) && dao_total == old(dao_total) && genState.TotalBalance == old(genState.TotalBalance)
+    loop 1 invariant sum: totalBalance == BalSum(L, #i)
+    loop 1 invariant done: forall k int :: 0 <= k && k < #i ==> dao_bal[bal_addr(L[k])] == cover(old(dao_bal)[bal_addr(L[k])], L[k].Coins)
+    loop 1 invariant rest: forall a Bytes :: (forall k int :: 0 <= k && k < #i ==> bal_addr(L[k]) != a) ==> dao_bal[a] == old(dao_bal)[a]
+    loop 1 invariant holders: forall k int :: 0 <= k && k < #i ==> (!ciszero(L[k].Coins) ==> dao_holders[bal_key(L[k])])
+    loop 1 invariant holders_grow: forall key Bytes :: old(dao_holders)[key] ==> dao_holders[key]
+    loop 1 invariant holders_only: forall key Bytes :: (forall k int :: 0 <= k && k < #i ==> bal_key(L[k]) != key || ciszero(L[k].Coins)) ==> dao_holders[key] == old(dao_holders)[key]
+    loop 2 invariant idx: 0 <= #i && #i <= coins_len(totalBalance)
+    loop 2 invariant total: forall d string :: dao_total[d] == ite(coins_prefix(totalBalance, #i)[d] != 0, coins_prefix(totalBalance, #i)[d], old(dao_total)[d])
+    loop 2 back use CoinsPrefixAbsent(totalBalance, #i - 1, coins_at(totalBalance, #i - 1).Denom)
+@*/
